@@ -161,6 +161,30 @@ func Where(rt *rapid.T, t *model.Table, direct bool, qual string) *model.Cond {
 	if len(cols) == 0 {
 		return nil
 	}
+	if rapid.IntRange(0, 11).Draw(rt, "inlist") == 0 {
+		// the dialect's stand-in for IN: col = v1 OR col = v2 OR ... - where an operand may also be
+		// another column
+		ci := cols[rapid.IntRange(0, len(cols)-1).Draw(rt, "incol")]
+		c := &model.Cond{}
+		for k := rapid.IntRange(3, 6).Draw(rt, "inlen"); k > 0; k-- {
+			l := model.Operand{Col: t.Cols[ci].Name, Qual: qual}
+			var r model.Operand
+			var same []int
+			for _, cj := range cols {
+				if cj != ci && comparable(t.Cols[cj].Type, t.Cols[ci].Type) {
+					same = append(same, cj)
+				}
+			}
+			if len(same) > 0 && rapid.IntRange(0, 3).Draw(rt, "incolcol") == 0 {
+				r = model.Operand{Col: t.Cols[same[rapid.IntRange(0, len(same)-1).Draw(rt, "incol2")]].Name, Qual: qual}
+			} else {
+				v := litFor(rt, t, ci, direct)
+				r = model.Operand{Lit: &v}
+			}
+			c.Or = append(c.Or, []model.Cmp{{L: l, Op: "=", R: r}})
+		}
+		return c
+	}
 	nor := rapid.SampledFrom([]int{1, 1, 1, 2, 2, 3}).Draw(rt, "nor")
 	c := &model.Cond{}
 	for i := 0; i < nor; i++ {
